@@ -36,6 +36,7 @@ func condConfigs(g map[string]string, mapKey interface{}) []idxCfg {
 		{name: "clientO", client: [][]abs.CKey{{{Col: g["o"]}}}},
 		{name: "clientMK", client: [][]abs.CKey{{{Col: g["m"], Key: key}}}},
 		{name: "clientAO", client: [][]abs.CKey{{{Col: g["a"]}, {Col: g["o"]}}}},
+		{name: "clientA+clientO", client: [][]abs.CKey{{{Col: g["a"]}}, {{Col: g["o"]}}}},
 		{name: "schemaA+clientO+clientAO", schema: [][]string{{g["a"]}}, client: [][]abs.CKey{{{Col: g["o"]}}, {{Col: g["a"]}, {Col: g["o"]}}}},
 	}
 }
@@ -117,7 +118,7 @@ func (e *Env) RunCond(c CCase, emit func(map[string]interface{}) error) error {
 				return err
 			}
 			base := map[string]interface{}{"ev": "cond", "group": gname, "idxcfg": cfg.name, "rows": rowsJ, "conds": c.Conds,
-				"mode": "all", "err": "", "uuids": []interface{}{}}
+				"caseConds": c.Conds, "mode": "all", "err": "", "uuids": []interface{}{}}
 			models := map[string]model.Model{}
 			for i, r := range c.Rows {
 				u := fmt.Sprintf("u%d", i+1)
@@ -148,6 +149,52 @@ func (e *Env) RunCond(c CCase, emit func(map[string]interface{}) error) error {
 			}
 			if err := emit(ev); err != nil {
 				return err
+			}
+			// selecting must not change the cache: the same selection again, then every
+			// single-condition selection on the indexed columns for the values present
+			if ev["err"] == "" {
+				again := copyEv(base)
+				again["via"] = "cache-again"
+				rs, err := rc.RowsByCondition(conds)
+				if err != nil {
+					again["err"] = err.Error()
+				} else {
+					again["uuids"] = tokens(ce.ctx, rs)
+				}
+				if err := emit(again); err != nil {
+					return err
+				}
+				seenA, seenO := map[int]bool{}, map[string]bool{}
+				for _, r := range c.Rows {
+					var follow [][]interface{}
+					if !seenA[r.A] {
+						seenA[r.A] = true
+						follow = append(follow, []interface{}{"a", "==", r.A, "atom"})
+					}
+					ok := fmt.Sprint(normList(r.O))
+					if !seenO[ok] {
+						seenO[ok] = true
+						follow = append(follow, []interface{}{"o", "==", normList(r.O), "set"})
+					}
+					for _, fc := range follow {
+						fconds, err := renderConds(ce.ctx, g, [][]interface{}{fc})
+						if err != nil {
+							return err
+						}
+						fe := copyEv(base)
+						fe["via"] = "cache-after"
+						fe["conds"] = [][]interface{}{fc}
+						rs, err := rc.RowsByCondition(fconds)
+						if err != nil {
+							fe["err"] = err.Error()
+						} else {
+							fe["uuids"] = tokens(ce.ctx, rs)
+						}
+						if err := emit(fe); err != nil {
+							return err
+						}
+					}
+				}
 			}
 			// ---- the transaction engine (select), only with schema-defined indexes
 			if len(cfg.client) == 0 {
